@@ -103,6 +103,9 @@ theorem incNumSendStreams_lt (s : Streams) (k : Nat) (h1 : s.counts.canIncNumSen
   simp only [h1, h2, if_true, Bool.false_eq_true, if_false]
   lt_auto
 
+theorem notifyPushIfRecvEnded_lt (s : Streams) (k : Nat) : LT [k] s (s.notifyPushIfRecvEnded k) := by
+  unfold Streams.notifyPushIfRecvEnded; lt_auto
+
 theorem recvRecvTrailers_lt (s : Streams) (k : Nat) (h : HeadersIn) : LT [k] s (s.recvRecvTrailers k h).1 := by
   unfold Streams.recvRecvTrailers; lt_auto
 
